@@ -22,7 +22,7 @@ TRUSTED_BASE = c01.TRUSTED_BASE + [
 ]
 ASSUMPTIONS = ['preemption inside enter_scope/exit_scope is not explored (it cannot matter while the stack is thread-local, which the schedule engine checks)']
 
-BAD = ['1x', 'a b', 'a//b', '/a', 'a/', 'a-b']
+BAD = ['1x', 'a b', 'a//b', '/a', 'a/', 'a-b', 's1\n', 's1/s2\n', '\ns1']
 
 
 def compose(cur, arg):
@@ -36,7 +36,7 @@ def compose(cur, arg):
   else:
     new, ok = [], False
   import re
-  ok = ok and all(isinstance(x, str) and re.match(r'^([a-zA-Z_]\w*\.)*[a-zA-Z_]\w*$', x) for x in new)
+  ok = ok and all(isinstance(x, str) and re.fullmatch(r'([a-zA-Z_]\w*\.)*[a-zA-Z_]\w*', x) for x in new)
   return new, ok
 
 
@@ -58,7 +58,7 @@ class SeqEngine(Engine):
                         ['curscope']]],
         ['curscope'],
         ['with', 's1', [['with', '1x', [['curscope']]], ['curscope']]], ['curscope'],
-        ['with', 's1/s2', [['with', {}, []]]], ['curscope'],
+        ['with', 's1/s2', [['with', {}, []]]], ['curscope'], ['with', 's1', [['with', {'raises': 1}, []], ['curscope']]], ['curscope'],
         ['with', ['a', 'b b'], [['curscope']]], ['curscope'], ['with', '', [['curscope']]],
         ['callvia', 's1/s2/f', [], []], ['curscope'], ['dumpcalls']]}]
 
@@ -78,7 +78,7 @@ class SeqEngine(Engine):
       return rng.choice(BAD)
     if r < 0.97:
       return [rng.choice(ginm.SCOPES), rng.choice(BAD)]
-    return {}
+    return {} if rng.random() < 0.5 else {'raises': 1}      # wrong type; or a value whose inspection itself raises
 
   def gen_body(self, rng, regs, depth):
     ops = []
